@@ -403,6 +403,7 @@ type EntryResult struct {
 	Steps       int
 	Truncated   bool
 	PCSamples   []string
+	DecSamples  []string
 	Wall        time.Duration
 	UnwoundViol []Violation
 }
@@ -425,6 +426,27 @@ func (e *Engine) runPath(w *Worker, cfg *EntryCfg, fn *ssa.Function, dec []Decis
 		res.Steps = p.steps
 		if len(p.pc) > 0 && res.Status == "done" {
 			res.PCSample = Pretty(p.tt.And(p.pc...), 400)
+		}
+		if res.Status == "done" && len(p.trace) > 0 {
+			// the decision sequence that identifies this path (branch outcomes b0/b1,
+			// chosen values c<v>, excluded values x<v>): for threaded entries the c-values
+			// inside the scheduler are the schedule
+			var sb strings.Builder
+			for i, d := range p.trace {
+				if i >= 120 {
+					sb.WriteString(" ...")
+					break
+				}
+				switch d.K {
+				case 0:
+					fmt.Fprintf(&sb, " b%d", d.V&1)
+				case 1:
+					fmt.Fprintf(&sb, " c%d", d.V)
+				default:
+					fmt.Fprintf(&sb, " x%d", d.V)
+				}
+			}
+			res.DecSample = strings.TrimSpace(sb.String())
 		}
 		if r := recover(); r != nil {
 			switch x := r.(type) {
@@ -593,6 +615,9 @@ func (e *Engine) explore(entries []EntryCfg, nworkers int, solverBin string, qti
 				}
 				if res.PCSample != "" && len(er.PCSamples) < 3 {
 					er.PCSamples = append(er.PCSamples, res.PCSample)
+				}
+				if res.DecSample != "" && (len(er.DecSamples) < 2 || (len(er.DecSamples) < 3 && er.Paths > 50)) {
+					er.DecSamples = append(er.DecSamples, res.DecSample)
 				}
 				er.Wall = time.Since(starts[it.entry])
 				mu.Unlock()
